@@ -539,6 +539,30 @@ theorem find_code_matches_source :
        "start = start + endOffset + len(token.until)", "end", "ret[1] = start", "return ret"] := by
   decide
 
+/-- **Tie to the source**: the WHOLE of `CompileEx`, statement by statement – in particular which
+search function is installed (`indexOfFunc := strings.Index`, `indexOfFunc = indexIgnoreCase` under
+`ignoreCase`), that both the delimiters and the prefix are lowered with `lowerASCII`, and the fields
+of the returned `Dissect` – is the text `compileStep` / `compileEx` mirror (`compile_code_matches_source`
+pins searches, slices and conditions only). -/
+theorem compile_skeleton_matches_source :
+    Gen.C12.compileSkeleton =
+      ["parts := make([]token, 0)", "groupNames := make(map[string]int)", "var prefix string",
+       "groupIndex := 0", "for ; ; ", "start := strings.Index(expr, \"%{\")", "if start < 0",
+       "if len(parts) == 0", "prefix = expr", "end", "break", "end", "if len(parts) == 0",
+       "prefix = expr[:start]", "end", "expr = expr[start+2:]", "stop := strings.Index(expr, \"}\")",
+       "if stop < 0", "return nil, ErrorUnclosedToken", "end", "keyName := expr[:stop]",
+       "expr = expr[stop+1:]", "end := strings.Index(expr, \"%{\")", "if end < 0", "end = len(expr)", "else",
+       "if end == 0", "return nil, ErrorSequentialToken", "end", "end", "keyUntil := expr[:end]",
+       "expr = expr[end:]", "if ignoreCase", "keyUntil = lowerASCII(keyUntil)", "end", "skipped := false",
+       "switch", "case len(keyName) == 0", "skipped = true", "case keyName[0] == '?'", "skipped = true",
+       "keyName = keyName[1:]", "end",
+       "parts = append(parts, token{ name: keyName, until: keyUntil, skip: skipped, })", "if !skipped",
+       "if _, ok := groupNames[keyName]; ok", "return nil, ErrorKeyConflict", "end", "groupIndex++",
+       "groupNames[keyName] = groupIndex", "end", "end", "indexOfFunc := strings.Index", "if ignoreCase",
+       "indexOfFunc = indexIgnoreCase", "prefix = lowerASCII(prefix)", "end",
+       "return &Dissect{ groupNames: groupNames, groupCount: groupIndex, tokens: parts, prefix: prefix, indexOf: indexOfFunc, }, nil"] := by
+  rfl
+
 /-- **Tie to the source**: `indexIgnoreCase` (four arms, loop bounds `i < n`, `i <= len(s)-n`,
 `j < n`, the comparison `lowerByte(s[i+j]) != loweredSubstr[j]`) and `lowerASCII`, statement by
 statement, are what `indexIgnoreCase` / `icLoop` / `foldEq` / `lowerASCIILoop` mirror. -/
